@@ -66,10 +66,20 @@ def _deannotate_stmts(stmts: List[ast.stmt]) -> List[ast.stmt]:
 
 
 def deannotate(fn: ast.FunctionDef) -> ast.FunctionDef:
-    if not any(isinstance(n, ast.AnnAssign) for n in ast.walk(fn)):
+    if not any(isinstance(n, (ast.AnnAssign, ast.Assert)) for n in ast.walk(fn)):
         return fn
     new = copy.deepcopy(fn)
     new.body = _deannotate_stmts(new.body)
+    if any(isinstance(n, ast.Assert) for n in ast.walk(new)):
+        # `assert C` is read as the assumption C on the paths that continue (it adds no state change); the rules decide what the
+        # function does when it completes, and the pinned tree has no assert that guards behaviour
+        class A(ast.NodeTransformer):
+            def visit_Assert(self, node):
+                if any(isinstance(x, (ast.NamedExpr, ast.Yield, ast.Await)) for x in ast.walk(node)):
+                    return node
+                return ast.copy_location(ast.Pass(), node)
+        new = A().visit(new)
+        ast.fix_missing_locations(new)
     return new
 
 
@@ -360,6 +370,33 @@ class Inliner:
                 if self.sf is not None and k.file is not self.sf:
                     fn = self._foreign(fn, k.file)
                 return fn, True
+        if isinstance(f, ast.Attribute) and not f.attr.startswith("__") and f.attr not in self.exclude:
+            # a method of a record built in place (`MidiInWord(always, channel).to_word()`), or an alternative constructor of a record
+            # class (`SyncFlags.from_word(w)`, a classmethod): small straight-line methods of NamedTuple / dataclass records.  The
+            # arguments of the construction must be simple (they are written at every use of a field).
+            rk = None
+            is_cls = False
+            if isinstance(f.value, ast.Call) and isinstance(f.value.func, (ast.Name, ast.Attribute)) and not f.value.keywords \
+                    and all(isinstance(a_, (ast.Name, ast.Attribute, ast.Constant)) for a_ in f.value.args):
+                try:
+                    if record_fields(self.repo, self.ci, self.sf, f.value.func):
+                        rk = self.repo.class_of_expr(f.value.func, self.ci, self.sf)
+                except Exception:
+                    rk = None
+            elif isinstance(f.value, ast.Name) and f.value.id[:1].isupper():
+                try:
+                    if record_fields(self.repo, self.ci, self.sf, f.value):
+                        rk, is_cls = self.repo.class_of_expr(f.value, self.ci, self.sf), True
+                except Exception:
+                    rk = None
+            if rk is not None and f.attr in rk.methods:
+                m_ = rk.methods.raw[f.attr] if hasattr(rk.methods, "raw") and f.attr in getattr(rk.methods, "raw", {}) else rk.methods[f.attr]
+                d_ = _decos(m_)
+                if ((not is_cls and not d_) or (is_cls and d_ == ["classmethod"])) and len(_body(m_)) <= 6 and not _is_generator(m_) \
+                        and not any(isinstance(n, (ast.With, ast.Try, ast.For, ast.While, ast.Global, ast.Nonlocal)) for n in ast.walk(m_)):
+                    if self.sf is not None and rk.file is not self.sf:
+                        m_ = self._foreign(m_, rk.file)
+                    return m_, True
         if isinstance(f, ast.Attribute) and norm(f.value) in self.receivers:
             # a method of another object whose class is known to the caller of the inliner (the module in a project's loop)
             k = self.receivers[norm(f.value)]
@@ -463,6 +500,21 @@ class Inliner:
         local bound once to one — is an instance built with constant arguments."""
         ctor = record_constant(self.repo, self.ci, self.sf, e, getattr(self, "_root", None))
         if ctor is None:
+            # a local bound once to a record built in place from simple values (`word = MidiInWord(self.a, self.b)`)
+            root = getattr(self, "_root", None)
+            if isinstance(e, ast.Name) and root is not None:
+                from .packed import single_defs
+                try:
+                    d0 = single_defs(root).get(e.id)
+                except Exception:
+                    d0 = None
+                if isinstance(d0, ast.Call) and isinstance(d0.func, (ast.Name, ast.Attribute)) and not d0.keywords \
+                        and all(isinstance(a_, (ast.Name, ast.Attribute, ast.Constant)) for a_ in d0.args):
+                    try:
+                        if record_fields(self.repo, self.ci, self.sf, d0.func):
+                            return self.repo.class_of_expr(d0.func, self.ci, self.sf)
+                    except Exception:
+                        return None
             return None
         return self.repo.class_of_expr(ctor.func, self.ci, self.sf)
 
@@ -607,6 +659,7 @@ class Inliner:
         tag = f"__h{self.counter}"
         pre, mapping = self._bind(fn, call, bound)
         body = _deannotate_stmts(copy.deepcopy(_body(fn)))
+        body = [st for st in body if not (isinstance(st, ast.Assert) and not any(isinstance(x, (ast.NamedExpr, ast.Yield, ast.Await)) for x in ast.walk(st)))] or [ast.Pass()]
         fwd = getattr(self, "_forwarded_kw", None)
         if fwd is not None:
             kwn, extra = fwd
@@ -2721,6 +2774,12 @@ def normalize(repo: Repo, ci: Optional[ClassInfo], fn: ast.FunctionDef, sf: Opti
             out = fold_const_collections(repo, ci, the_sf, out)
         except Exception:
             pass
+    if the_sf is not None and FOLD_NAMED_INTS and any(isinstance(n, ast.Attribute) and isinstance(n.value, (ast.Name, ast.Attribute))
+                                                      and norm(n.value).split(".")[-1][:1].isupper() for n in ast.walk(out)):
+        try:
+            out = fold_intenum_members(repo, ci, the_sf, out)
+        except Exception:
+            pass
     if ci is not None and FOLD_NAMED_INTS:
         cconsts = _class_int_constants(repo, ci)
         if cconsts and any(isinstance(n, ast.Attribute) and n.attr in cconsts for n in ast.walk(out)):
@@ -3306,6 +3365,67 @@ def definition_of(repo: Repo, ci: Optional[ClassInfo], sf: Optional[SourceFile],
             if r is not None and r[1] == "assign":
                 return r[2]
     return None
+
+
+def fold_intenum_members(repo: Repo, ci: Optional[ClassInfo], sf: Optional[SourceFile], fn: ast.FunctionDef) -> ast.FunctionDef:
+    """`ChunkNumber.first_label` with `class ChunkNumber(IntEnum): first_label = 8` reads as 8 (an IntEnum / IntFlag member is an int in
+    arithmetic, comparisons, struct.pack and as an enumerate start; its identity and repr are not what the rules look at).  Also
+    `int(ChunkNumber.x)` and `ChunkNumber.x.value`."""
+    bound = {n.id for n in ast.walk(fn) if isinstance(n, ast.Name) and isinstance(n.ctx, (ast.Store, ast.Del))} | {a.arg for a in fn.args.args}
+    cache: Dict[str, Optional[Dict[str, int]]] = {}
+
+    def members(e: ast.expr) -> Optional[Dict[str, int]]:
+        key = norm(e)
+        if key in cache:
+            return cache[key]
+        out = None
+        if isinstance(e, ast.Name) and e.id in bound:
+            cache[key] = None
+            return None
+        try:
+            k = repo.class_of_expr(e, ci, sf)
+        except Exception:
+            k = None
+        if k is not None and any(norm(b).split(".")[-1] in ("IntEnum", "IntFlag") for b in k.node.bases):
+            out = {}
+            for st in k.node.body:
+                if isinstance(st, ast.Assign) and len(st.targets) == 1 and isinstance(st.targets[0], ast.Name):
+                    try:
+                        v = repo.fold(st.value, ci=k, sf=k.file)
+                    except Exception:
+                        continue
+                    if isinstance(v, int) and not isinstance(v, bool):
+                        out[st.targets[0].id] = v
+        cache[key] = out
+        return out
+    changed = False
+
+    class T(ast.NodeTransformer):
+        def visit_Attribute(self, node):
+            nonlocal changed
+            node = self.generic_visit(node)
+            if isinstance(node.ctx, ast.Load) and isinstance(node.value, (ast.Name, ast.Attribute)) and norm(node.value).split(".")[-1][:1].isupper():
+                m = members(node.value)
+                if m and node.attr in m:
+                    changed = True
+                    return ast.copy_location(ast.Constant(value=m[node.attr]), node)
+            if isinstance(node.ctx, ast.Load) and node.attr == "value" and isinstance(node.value, ast.Constant) and isinstance(node.value.value, int) \
+                    and getattr(node.value, "_from_enum", False):
+                return node.value
+            return node
+
+        def visit_Call(self, node):
+            node = self.generic_visit(node)
+            if isinstance(node.func, ast.Name) and node.func.id == "int" and len(node.args) == 1 and not node.keywords and isinstance(node.args[0], ast.Constant) \
+                    and isinstance(node.args[0].value, int) and not isinstance(node.args[0].value, bool):
+                return node.args[0]
+            return node
+    new = T().visit(copy.deepcopy(fn))
+    if not changed:
+        return fn
+    ast.fix_missing_locations(new)
+    number(new)
+    return new
 
 
 def fold_const_collections(repo: Repo, ci: Optional[ClassInfo], sf: Optional[SourceFile], fn: ast.FunctionDef) -> ast.FunctionDef:
